@@ -64,6 +64,20 @@ limit the *analysis* recursion (term substitution, fixpoint rounds), never a run
       a fill whose key cannot be located (`update(..)`), a table filled in one method and read in another: undecided.
       "Takes part in the key" is deliberately weak (the parameter is in the slice of the key): whether the key *determines*
       the parameter is not decided, so no algebraic fact about the key expression is needed.
+* R9  (reading a view is pure: a MappingProxyType forwards every read to the mapping it wraps, so the class of that mapping
+      must not write in a hook of the read protocol): 1 (the `MappingProxyType(..)` constructions of R7; the class of the
+      wrapped object from the resolved constructor call; the class hierarchy inside the package; the read hooks -
+      `__getitem__`, `__missing__`, `__contains__`, `__iter__`, `__len__`, `get`, `keys`, `items` ... - that a class of the
+      package defines, also through a class-level alias of a package function; modifications of the receiver in a hook: item
+      store/delete, in-place operator, mutator method, `super().__setitem__(..)`, `dict.__setitem__(self, ..)`, a package
+      callee that modifies the parameter the receiver is bound to) + 3 (provenance of the wrapped object: reaching
+      definitions of locals, returns of package callees with bound arguments, the argument at every call site of a
+      parameter, every write of a configuration attribute; local aliases of the receiver inside a hook) + 5 (case analysis
+      over the library mapping classes named in the analysed code: dict / OrderedDict / Counter / UserDict read without
+      writing, `defaultdict(factory)` stores the default on a missing key - a stated fact about the library, nothing is
+      executed).  Violated: a located hook modifies its receiver, or the mapping is a defaultdict with a factory.  An object
+      whose class cannot be located, an unknown library base class, a metaclass, a hook that keeps state in an *attribute*
+      of the mapping: undecided.
 """
 
 from __future__ import annotations
@@ -677,7 +691,12 @@ def run(ctx):
         "the cached value (R8): where a method keeps a result in the configuration (keyed table or slot) and answers later "
         "calls from there, every parameter in the backward slice (def-use + control dependence) of the stored value takes "
         "part in the key of the store and of the look-up, or the look-up is conditioned on it like the store - otherwise "
-        "the result of a view access depends on which views were read before."
+        "the result of a view access depends on which views were read before. Reading a view is pure (R9): the read-only "
+        "proxy forwards every read (subscript -> __getitem__/__missing__, in, get, iteration, len, ==) to the mapping it wraps, "
+        "so the class of the mapping behind every view proxy is located (constructor reached through locals, helpers, call "
+        "sites, attribute writes) and no hook of the read protocol it or its package bases define may modify the mapping; "
+        "library mappings are judged by a table (dict/OrderedDict/Counter/UserDict pure, defaultdict with a factory stores on "
+        "a missing key) - otherwise a look-up changes len/keys/items of the cached view and what later operations produce."
     )
     rep.not_decided = ["result equality of every operation before/after (follows from R1-R4 for the step-list channel)", "other channels such as RNG state",
                        "R7: a reference to the wrapped mapping that is retained by a callee or a container before the publication (only "
@@ -685,9 +704,13 @@ def run(ctx):
                        "which statements can actually raise (R7 demands the publish-last order regardless)",
                        "R8: whether a cache key determines (rather than merely involves) each input of the cached value; whether equal "
                        "conditions on a non-boolean input at look-up and store pin its value; caches addressed through computed "
-                       "attribute names (getattr/setattr helpers: judged by R5) or filled and read in different functions"]
+                       "attribute names (getattr/setattr helpers: judged by R5) or filled and read in different functions",
+                       "R9: read hooks of the *values* stored in a view (only the mapping itself is judged); a read hook that keeps state "
+                       "in an attribute of the mapping (undecided); mapping classes from outside the package other than the tabulated ones"]
     rep.trusted_base = ["CPython ast", "mutator / fresh-copy tables in csverif/alias.py", "call resolution by construction/annotation",
-                        "baseline vocabulary csverif/baseline_names.json (R8: which functions are public entry points)"]
+                        "baseline vocabulary csverif/baseline_names.json (R8: which functions are public entry points)",
+                        "R9: types.MappingProxyType forwards exactly the read protocol of the wrapped mapping; the reads of dict, "
+                        "OrderedDict, Counter and UserDict do not modify them; defaultdict.__missing__ stores factory() under the missing key"]
     rep.assumptions = ["objects handed to external libraries are not mutated by them", "tuples/bytes/str/int elements are immutable"]
     al = _FlowAlias(ctx, make_source(ctx)).run()
     # count the reads of the store we analysed
@@ -738,6 +761,7 @@ def run(ctx):
     r6(ctx)
     r7(ctx)
     r8(ctx)
+    r9(ctx)
 
 
 def _holds_mutable(v: ast.AST) -> bool:
@@ -1312,6 +1336,273 @@ def r7(ctx):
     for fq, msgs in sorted(by_func.items()):
         f = funcs[fq]
         ctx.ob("R7", "ALIAS", f, "cache slot bound once", not msgs, "; ".join(sorted(set(msgs))[:3]) if msgs else "every cache slot that receives a proxy here is bound at most once on any path", f.node)
+
+
+# ============================================================================================== R9: reading a view is pure
+# what `types.MappingProxyType` forwards to the mapping it wraps (subscript -> `__getitem__`, which for a dict falls back to
+# `__missing__`; `in`, iteration, len(), reversed(), ==, repr(), `|`, .get/.keys/.values/.items/.copy)
+_READ_HOOKS = ("__getitem__", "__missing__", "__contains__", "__iter__", "__len__", "__reversed__", "__eq__", "__ne__", "__repr__", "__str__",
+               "__bool__", "__or__", "__ror__", "__hash__", "__copy__", "__deepcopy__", "get", "keys", "values", "items", "copy")
+# library mappings whose read protocol does not write (trusted base).  Counter.__missing__ answers 0 without storing it.
+_PURE_MAPPINGS = {"dict", "OrderedDict", "collections.OrderedDict", "Counter", "collections.Counter", "UserDict", "collections.UserDict"}
+# ... and the one that does: `defaultdict(factory)[missing]` stores factory() under the key that was only read
+_DEFAULTING = {"defaultdict", "collections.defaultdict"}
+
+
+class _ReadPure:
+    """Does a *read* through a view's proxy leave the wrapped mapping alone?
+
+    For one `MappingProxyType(W)` construction the *objects* W may denote are located through reaching definitions of
+    locals, the returns of package callees, the arguments bound at every call site of a parameter and every write of a
+    configuration attribute, down to the expression that creates the mapping.  Its class is then judged:
+    * a dict display / comprehension, dict, OrderedDict, Counter, UserDict: pure by the trusted base;
+    * `defaultdict(f)` with a factory: violated (`__missing__` stores the default under the key that was read);
+    * a class of the package: every read hook (`_READ_HOOKS`) that the class or one of its package bases defines must
+      not modify its receiver - item store / delete, in-place operator, mutator method, `super().__setitem__(..)`,
+      `dict.__setitem__(self, ..)`, a package callee that modifies the parameter the receiver is bound to; its library
+      bases are judged as above;
+    * anything else (an object from an external call, an unknown base class, a metaclass): undecided."""
+
+    def __init__(self, ctx, co: _ConfigObjects, fin: "_Final"):
+        self.ctx, self.co, self.fin = ctx, co, fin
+        self._cls: Dict[str, List[Tuple[str, str]]] = {}
+        self._active: Set[tuple] = set()
+        self.classes: Set[str] = set()
+
+    # ---------------------------------------------------------------- where does the wrapped object come from
+    def origins(self, f, e: Optional[ast.AST], env: Env, depth: int = 0) -> List[Tuple[str, str]]:
+        if e is None or depth > 10:
+            return [("unk", f"the mapping wrapped in {f.qualname} cannot be traced to the expression that creates it")]
+        res: List[Tuple[str, str]] = []
+        for a in _alts(e):
+            res.extend(self._origin(f, a, env, depth))
+        return res
+
+    def _origin(self, f, a: ast.AST, env: Env, depth: int) -> List[Tuple[str, str]]:
+        ctx, co = self.ctx, self.co
+        if isinstance(a, (ast.Dict, ast.DictComp)):
+            return [("ok", "a built-in dict")]
+        if isinstance(a, ast.Name):
+            rd = reaching_defs(ctx, f, a.id, a)
+            if not rd:
+                rd = list(assignments_to(f.node, a.id))
+                if a.id in params(f.node):
+                    rd.append((f.node, None))
+            if not rd:
+                c = f.module.consts.get(a.id)
+                if c is not None and c is not a and ("const", f.module.name, a.id) not in self._active:
+                    self._active.add(("const", f.module.name, a.id))
+                    try:
+                        return self.origins(f, c, {}, depth + 1)
+                    finally:
+                        self._active.discard(("const", f.module.name, a.id))
+                return [("unk", f"`{a.id}` in {f.qualname} is not a local")]
+            res: List[Tuple[str, str]] = []
+            for st, v in rd:
+                if st is f.node:
+                    vals = co._param_values(f, a.id, env)
+                    key = ("param", f.fq, a.id)
+                    if vals is None:
+                        res.append(("unk", f"the wrapped mapping is parameter `{a.id}` of {f.qualname}, whose call sites do not all bind it"))
+                    elif key not in self._active:
+                        self._active.add(key)
+                        try:
+                            for cf, ce, cenv in vals:
+                                res.extend(self.origins(cf, ce, cenv, depth + 1))
+                        finally:
+                            self._active.discard(key)
+                elif v is None:
+                    res.append(("unk", f"the wrapped mapping is bound by `{src(st)[:40]}` in {f.qualname} (loop / unpacking / in-place operator)"))
+                else:
+                    res.extend(self.origins(f, v, env, depth + 1))
+            return res
+        if isinstance(a, ast.Call):
+            if co.is_proxy_ctor(f, a):
+                return self.origins(f, a.args[0] if a.args and not isinstance(a.args[0], ast.Starred) else None, env, depth + 1)
+            cal = ctx.rs.resolve_call(f, a)
+            if cal.kind == "class":
+                return self.class_verdict(cal.fq)
+            if cal.kind == "func" and cal.func is not None:
+                g = cal.func
+                key = ("ret", g.fq)
+                if key in self._active:
+                    return []
+                self._active.add(key)
+                try:
+                    rets = [r for r in returns_of(g) if r.value is not None]
+                    if not rets or any(isinstance(n, (ast.Yield, ast.YieldFrom)) for n in body_walk(g.node)):
+                        return [("unk", f"`{src(a)[:40]}`: {g.qualname} does not return the mapping by a plain return")]
+                    genv = co.bind(f, a, g, env)
+                    res = []
+                    for r in rets:
+                        res.extend(self.origins(g, r.value, genv, depth + 1))
+                    return res
+                finally:
+                    self._active.discard(key)
+            if cal.kind == "external":
+                names = {cal.fq, dotted(a.func)}
+                if names & _PURE_MAPPINGS:
+                    return [("ok", f"`{src(a)[:30]}` is a library mapping whose reads do not write")]
+                if names & _DEFAULTING:
+                    fac = a.args[0] if a.args else None
+                    if fac is None or (isinstance(fac, ast.Constant) and fac.value is None):
+                        return [("ok", f"`{src(a)[:30]}` has no default factory")]
+                    if isinstance(fac, ast.Starred):
+                        return [("unk", f"`{src(a)[:40]}`: the default factory cannot be located")]
+                    return [("bad", f"the mapping behind the proxy is `{src(a)[:50]}` ({f.qualname}): looking up a key that is not there stores "
+                                    f"the default under that key (defaultdict.__missing__), so a read through the read-only proxy changes the view")]
+                if names & _COPY_CALLS and a.args:
+                    return self.origins(f, a.args[0], env, depth + 1)
+            if isinstance(a.func, ast.Attribute) and a.func.attr == "copy" and not a.args and not a.keywords:
+                inner = self.origins(f, a.func.value, env, depth + 1)
+                if inner and all(k == "ok" for k, _d in inner):
+                    return inner
+                return [("unk", f"`{src(a)[:40]}` in {f.qualname}: the class of the copy is not determined")]
+            return [("unk", f"the mapping behind the proxy comes from `{src(a)[:40]}` in {f.qualname}, whose class is not known")]
+        if isinstance(a, ast.Attribute) and co.is_instance(f, a.value) and ctx.rs.property_of(co.cls_fq, a.attr) is None:
+            key = ("attr", a.attr)
+            if key in self._active:
+                return []
+            self._active.add(key)
+            try:
+                res = []
+                for w in co.writes():
+                    ns = co.write_names(w)
+                    if w.how == "delete" or (ns is not None and a.attr not in ns):
+                        continue
+                    if w.value is None or w.how != "store":
+                        res.append(("unk", f"the wrapped mapping is held by attribute {a.attr!r}, bound by `{src(w.node)[:40]}` in {w.f.qualname}"))
+                    else:
+                        res.extend(self.origins(w.f, w.value, {}, depth + 1))
+                return res or [("unk", f"the wrapped mapping is held by attribute {a.attr!r}, which is never assigned")]
+            finally:
+                self._active.discard(key)
+        return [("unk", f"the mapping behind the proxy is `{src(a)[:40]}` in {f.qualname}, whose class is not known")]
+
+    # ---------------------------------------------------------------- the class of the wrapped mapping
+    def class_verdict(self, fq: str) -> List[Tuple[str, str]]:
+        if fq in self._cls:
+            return self._cls[fq]
+        self._cls[fq] = []  # (a cycle in the bases adds nothing)
+        self.classes.add(fq)
+        repo, rs = self.ctx.repo, self.ctx.rs
+        mod, _, cname = fq.partition(".")
+        if mod not in repo.modules or cname not in repo.module(mod).classes:
+            self._cls[fq] = [("unk", f"the class {fq} of the wrapped mapping is not found")]
+            return self._cls[fq]
+        node = repo.cls(fq)
+        res: List[Tuple[str, str]] = []
+        own = set()
+        for g in repo.methods(fq):
+            name = g.qualname.rsplit(".", 1)[1]
+            if name in _READ_HOOKS:
+                own.add(name)
+                res.extend(self.hook(g, cname, name))
+        for name, v in repo.class_attrs(fq).items():
+            if name in _READ_HOOKS:
+                own.add(name)
+                d = dotted(v)
+                s = rs.lookup_dotted(mod, d) if d else None
+                g = repo.modules[s.module].funcs.get(s.name) if s is not None and s.kind == "func" else None
+                if g is not None:
+                    res.extend(self.hook(g, cname, name))
+                elif not (isinstance(v, ast.Constant) and v.value is None):
+                    res.append(("unk", f"{cname}.{name} is bound to `{src(v)[:40]}`, which is not a function of the package"))
+        if node.keywords:
+            res.append(("unk", f"class {cname} is created with `{src(node.keywords[0])[:40]}`"))
+        for b in node.bases:
+            b0 = b.value if isinstance(b, ast.Subscript) else b  # OrderedDict[str, Any]
+            d = dotted(b0)
+            s = rs.lookup_dotted(mod, d) if d else None
+            if s is not None and s.kind == "class":
+                res.extend(self.class_verdict(s.fq))
+                continue
+            names = {d, s.name if s is not None and s.kind == "external" else None}
+            if names & _PURE_MAPPINGS:
+                res.append(("ok", f"{cname} inherits the reads of {d}, which do not write"))
+            elif names & _DEFAULTING and "__missing__" in own:
+                res.append(("ok", f"{cname} replaces the storing __missing__ of {d}"))
+            elif names & {"Generic", "typing.Generic", "object"}:
+                continue
+            else:
+                res.append(("unk", f"{cname} inherits from `{src(b)[:40]}`, whose read protocol is not known"
+                                   + (" (a defaultdict stores the default on a missing key when it has a factory)" if names & _DEFAULTING else "")))
+        if not any(k != "ok" for k, _d in res):
+            res.append(("ok", f"no read hook of the mapping class {cname} modifies the mapping"))
+        self._cls[fq] = res
+        return res
+
+    def hook(self, g, cname: str, name: str) -> List[Tuple[str, str]]:
+        ps = params(g.node)
+        if not ps or ({"staticmethod", "classmethod"} & _decorators(g)) or assignments_to(g.node, ps[0]):
+            return [("unk", f"{cname}.{name}: the receiver of the read hook cannot be located")]
+        holders = _same_object_names(g, {ps[0]})
+        found = [d for _s, _h, d in self.fin.modifications(g, holders)]
+        rs = self.ctx.rs
+        unk: List[str] = []
+        for n in body_walk(g.node):
+            if isinstance(n, ast.Call) and isinstance(n.func, ast.Attribute) and n.func.attr in MUTATORS:
+                recv = strip_cast(n.func.value)
+                if isinstance(recv, ast.Call) and dotted(recv.func) == "super":
+                    found.append(f"`{src(n)[:50]}`")
+                elif n.args and isinstance(strip_cast(n.args[0]), ast.Name) and strip_cast(n.args[0]).id in holders and dotted(recv):
+                    d = dotted(recv)
+                    s = rs.lookup_dotted(g.module.name, d)
+                    if (s is not None and s.kind in ("class", "external")) or d in _PURE_MAPPINGS | _DEFAULTING:
+                        found.append(f"`{src(n)[:50]}`")  # dict.__setitem__(self, k, v)
+            elif isinstance(n, (ast.Assign, ast.AugAssign, ast.AnnAssign, ast.Delete)):
+                tgts = n.targets if isinstance(n, (ast.Assign, ast.Delete)) else [n.target]
+                for t, _v in [p for t0 in tgts for p in _target_pairs(t0, None)]:
+                    if isinstance(t, ast.Attribute) and isinstance(strip_cast(t.value), ast.Name) and strip_cast(t.value).id in holders:
+                        unk.append(f"`{src(n)[:50]}` in the read hook {cname}.{name} keeps state in an attribute of the mapping; whether later reads depend on it is not decided")
+        if found:
+            return [("bad", f"{d} in {g.qualname}, a read hook of the class {cname} of the mapping behind the proxy, modifies the mapping: a plain read "
+                            f"through the read-only proxy (subscript, `in`, .get, iteration ...) changes what the view holds afterwards") for d in sorted(set(found))[:2]]
+        if unk:
+            return [("unk", unk[0])]
+        return [("ok", f"{cname}.{name} does not modify the mapping")]
+
+
+def r9(ctx):
+    """Reading a view is pure.  A MappingProxyType only blocks the *write* protocol; every read is forwarded to the mapping
+    it wraps (`proxy[k]` -> `__getitem__` -> `__missing__`, `in`, `.get`, iteration, len, ==, repr).  So the class of the
+    mapping behind every proxy that can become the value of a view must not modify the mapping in any hook of the read
+    protocol - otherwise view access is not an observation: a look-up changes len()/keys()/items() of the cached view, the
+    views differ from those of a freshly parsed configuration, and whatever iterates the view afterwards (profile
+    generation) depends on which look-ups were made before."""
+    co = _config(ctx)
+    fmap = ctx.repo.func(f"{CONFIG_CLS}.settings_map")
+    co.returns(fmap, {})
+    for name in VIEWS:
+        co.returns(ctx.repo.func(f"{CONFIG_CLS}.{name}"), {})
+    for w in co.writes():  # (the cache fills: same provenance walk as R3/R7, idempotent)
+        if w.how == "store" and w.value is not None and w.f.module.name == co.mod:
+            co.kinds(w.f, w.value, {})
+    sites = list(co.proxy_sites)
+    for g in ctx.repo.methods(CONFIG_CLS):
+        sites.extend((g, c) for c in fn_calls(g.node) if co.is_proxy_ctor(g, c) and not any(c is x for _g, x in sites))
+    rp = _ReadPure(ctx, co, _Final(ctx, co))
+    text = "reading a view does not modify it"
+    per_func: Dict[str, tuple] = {}
+    for g, call in sites:
+        if co._inlined_away(g):
+            continue
+        arg = call.args[0] if call.args and not isinstance(call.args[0], ast.Starred) else None
+        per_func.setdefault(g.fq, (g, []))[1].extend(rp.origins(g, arg, {}))
+    for _fq, (g, res) in sorted(per_func.items()):
+        bad = sorted({d for k, d in res if k == "bad"})
+        unk = sorted({d for k, d in res if k == "unk"})
+        if bad:
+            ctx.ob("R9", "ALIAS", g, text, False, "; ".join(bad[:3]), g.node)
+        elif unk:
+            ctx.undecided("R9", "ALIAS", g, text, "; ".join(unk[:3]), g.node)
+        elif not res:
+            ctx.undecided("R9", "ALIAS", g, text, "the mapping behind the proxy cannot be located", g.node)
+        else:
+            ctx.ob("R9", "ALIAS", g, text, True, "; ".join(sorted({d for _k, d in res})[:3]), g.node)
+    if not per_func:
+        ctx.undecided("R9", "ALIAS", fmap, text, "no MappingProxyType construction was found on the way to a view: the mapping that is read cannot be located", fmap.node)
+    ctx.rep.extra["view_mapping_classes"] = sorted(rp.classes)
 
 
 # ============================================================================================== R8: cache hits are determined
